@@ -157,12 +157,31 @@ Definition coef (p : list Z) (v : Z) : Z := if v <? 0 then 0 else nth (Z.to_nat 
 (* cumulative count at w; beyond the end of the table it is the last (= total) value *)
 Definition cum_at (cs : list Z) (w : Z) : Z := if w <? 0 then 0 else nth (Z.to_nat w) cs (last cs 0).
 
+(* untied twin: P(n,m) = P(n,m-1) + x^m P(n-1,m), coefficient index = U (not 2U), one row per m *)
+Fixpoint urow_step (m : nat) (prev : list (list Z)) (left : list Z) : list (list Z) :=
+  match prev with
+  | [] => []
+  | q :: prev' => let p := padd q (pshift m left) in p :: urow_step m prev' p
+  end.
+Fixpoint urows (nmax m : nat) : list (list Z) :=
+  match m with
+  | O => repeat [1] (S nmax)
+  | S m' => match urows nmax m' with
+            | [] => []
+            | p0 :: rest => p0 :: urow_step m rest p0
+            end
+  end.
+Definition untied_table (n1 n2 : nat) : list Z := nth n1 (urows n1 n2) [].
+(* the table the checks use: index 2U with ties, index U without *)
+Definition dist_table (N1 N2 : nat) (T : list nat) : list Z :=
+  if has_ties T then mass_table N1 N2 T else untied_table N1 N2.
+
 Definition fast_pmf (N1 N2 : nat) (T : list nat) (tbl : list Z) (tot : Z) (u : Q) : Q :=
   if Qltb u 0 || Qleb ((1 # 2) + QN (N1 * N2)) u then 0%Q
   else if has_ties T then qcount (coef tbl (Qfloor (2 * u))) tot
-  else qcount (coef tbl (2 * Qfloor u)) tot.
+  else qcount (coef tbl (Qfloor u)) tot.
 Definition fast_cdf (N1 N2 : nat) (T : list nat) (cs : list Z) (tot : Z) (u : Q) : Q :=
   if Qltb u 0 then 0%Q
   else if Qleb (QN (N1 * N2)) u then 1%Q
   else if has_ties T then qcount (cum_at cs (Qfloor (2 * u))) tot
-  else qcount (cum_at cs (2 * Qfloor u)) tot.
+  else qcount (cum_at cs (Qfloor u)) tot.
